@@ -93,6 +93,11 @@ class HSM2Protocol:
     SIGNER_HBT_UD_VALUE_SIZE = 16  # bytes
     UI_HBT_UD_VALUE_SIZE = 32  # bytes
 
+    # Maximum size of a witness script (so that its length prefix, the
+    # script itself and the outpoint value fit the extra data sent to the device,
+    # whose length is encoded in two bytes)
+    MAX_WITNESS_SCRIPT_SIZE = 0xffff - 3 - 8  # bytes
+
     def __init__(self):
         self.logger = logging.getLogger(LOGGER_NAME)
         self._init_mappings()
@@ -348,6 +353,7 @@ class HSM2Protocol:
             and len(message) == 3
             and has_nonempty_hex_field(message, "tx")
             and has_field_of_type(message, "input", int)
+            and self._is_valid_input_index(message["input"])
             and has_field_of_type(message, "sighashComputationMode", str)
             and message["sighashComputationMode"] == "legacy"
         ):
@@ -359,9 +365,11 @@ class HSM2Protocol:
             and len(message) == 5
             and has_nonempty_hex_field(message, "tx")
             and has_field_of_type(message, "input", int)
+            and self._is_valid_input_index(message["input"])
             and has_field_of_type(message, "sighashComputationMode", str)
             and message["sighashComputationMode"] == "segwit"
             and has_nonempty_hex_field(message, "witnessScript")
+            and len(message["witnessScript"])//2 <= self.MAX_WITNESS_SCRIPT_SIZE
             and has_field_of_type(message, "outpointValue", int)
             and message["outpointValue"] > 0
             and message["outpointValue"] <= 0xffffffffffffffff
@@ -370,6 +378,10 @@ class HSM2Protocol:
 
         self.logger.info("Message field for expected message of type '%s' invalid", what)
         return self.ERROR_CODE_INVALID_MESSAGE
+
+    def _is_valid_input_index(self, input_index):
+        # The input index must fit in four bytes (unsigned)
+        return input_index >= 0 and input_index <= 0xffffffff
 
     def _validate_get_pubkey(self, request):
         # Validate key id
